@@ -389,20 +389,38 @@ def import_sedpack_quietly():
 import concurrent.futures as _cf  # noqa: E402
 
 
+def _lost(t, how: str, per_task_s: int) -> dict:
+    return {"hung": True, "died": how == "died", "args": list(t), "bad": [
+        ({"symptom": "hang" if how == "hung" else "worker-died",
+          "iface": "any"},
+         (f"{t}: the worker did not finish within {per_task_s} s (watchdog "
+          f"could not interrupt it)" if how == "hung" else
+          f"{t}: the worker process was killed while running this case "
+          f"(out of memory or a crash in native code)"), str(t))
+    ], "cases": 0, "required": 0, "harness": None}
+
+
 def run_with_watchdog(fn, tasks, per_task_s: int, ctx=None,
                       stop_after_hang=False):
     """pool.map with a per-task time-out: a hung worker is a finding, the
-    pool is rebuilt for the remaining tasks."""
+    pool is rebuilt for the remaining tasks.  A worker process that dies
+    (killed for memory, crash in native code) breaks the whole pool: the
+    unfinished tasks are then run one by one, each in a pool of its own, so
+    that the one that kills its worker is identified."""
+    from concurrent.futures.process import BrokenProcessPool
     results = []
     todo = list(tasks)
+    alone = False
     while todo:
         ex = pool()
-        futs = [(t, ex.submit(fn, t)) for t in todo]
+        batch = todo[:1] if alone else todo
+        rest = todo[1:] if alone else []
+        futs = [(t, ex.submit(fn, t)) for t in batch]
         todo = []
-        hung = False
+        hung = broken = False
         for t, f in futs:
-            if hung:
-                if f.done():
+            if hung or broken:
+                if f.done() and not f.exception():
                     results.append((t, f.result()))
                 else:
                     todo.append(t)
@@ -411,15 +429,21 @@ def run_with_watchdog(fn, tasks, per_task_s: int, ctx=None,
                 results.append((t, f.result(timeout=per_task_s)))
             except _cf.TimeoutError:
                 hung = True
-                results.append((t, {"hung": True, "args": list(t), "bad": [
-                    ({"symptom": "hang", "iface": "any"},
-                     f"{t}: the worker did not finish within {per_task_s} s "
-                     f"(watchdog could not interrupt it)", str(t))
-                ], "cases": 0, "required": 0, "harness": None}))
-        if hung:
+                results.append((t, _lost(t, "hung", per_task_s)))
+            except BrokenProcessPool:
+                broken = True
+                if alone:
+                    results.append((t, _lost(t, "died", per_task_s)))
+                else:
+                    todo.append(t)
+        if hung or broken:
             ex.kill()
-        ex.shutdown(wait=not hung, cancel_futures=True)
-        if hung and stop_after_hang:
+        ex.shutdown(wait=not (hung or broken), cancel_futures=True)
+        if broken and not alone:
+            alone = True  # identify the culprit: one task per pool from now
+        todo = todo + rest
+        if (hung or (broken and results and results[-1][1].get("died"))
+                ) and stop_after_hang:
             break  # the remaining tasks are not run (reported by the caller)
     return results
 
